@@ -28,6 +28,10 @@ class CaseTimeout(Exception):
     pass
 
 
+class ReaderUnknown(Exception):
+    """the small .itp reader met a section it has no atom count for"""
+
+
 def _alarm(signum, frame):
     raise CaseTimeout()
 
@@ -92,6 +96,8 @@ def link_text(l):
     if l["kind"] == "bond":
         pre = "+" if l["ord"] == "+" else ">"
         out += ["[ %s ]" % l["sec"], ("%s %s%s %s" % (l["a"], pre, l["b"], " ".join(l["par"]))).rstrip()]
+        if l.get("xb"):
+            out += ["[ exclusions ]", "%s %s%s" % (l["a"], pre, l["xb"])]
     elif l["kind"] == "remove":
         out += ["[ atoms ]", '%s {"replace": {"atomname": null}}' % l["a"]]
     else:
@@ -256,11 +262,13 @@ def read_itp(path):
                           "rn": tok[3], "cg": int(tok[5]), "resid": int(tok[2]), "_id": int(tok[0])})
         elif sec == "exclusions":
             inters.append({"sec": sec, "at": [int(t) for t in tok], "par": [], "ver": "i1"})
+        elif sec == "virtual_sitesn":
+            inters.append({"sec": sec, "at": [int(tok[0])] + [int(t) for t in tok[2:]], "par": [tok[1]], "ver": "i1"})
         elif sec in NATOMS:
             k = NATOMS[sec]
             inters.append({"sec": sec, "at": [int(t) for t in tok[:k]], "par": tok[k:], "ver": "i1"})
         else:
-            raise c.MachineryError("itp reader: unknown section %s in %s" % (sec, path))
+            raise ReaderUnknown("section %s" % sec)
     for i, a in enumerate(atoms):
         if a.pop("_id") != i + 1:
             raise c.MachineryError("itp reader: atom ids not consecutive in %s" % path)
@@ -269,9 +277,11 @@ def read_itp(path):
 
 # --------------------------------------------------------------------------- comparison (modulo what the writer canonicalises)
 
-def canon_inter(x, with_ver=True):
+def canon_inter(x, with_ver=True, itp=False):
     at = list(x["at"])
     sec = x["sec"]
+    if itp and sec == "impropers":      # the .itp writer lists improper dihedrals under [ dihedrals ]
+        sec = "dihedrals"
     if sec in SYMMETRIC2 or (sec == "exclusions" and len(at) == 2):
         at = sorted(at)
     elif sec in REVERSIBLE and at[::-1] < at:
@@ -279,15 +289,15 @@ def canon_inter(x, with_ver=True):
     return (sec, tuple(at), tuple(x["par"]), x.get("ver", "i1") if with_ver else "")
 
 
-def inter_bag(inters, with_ver=True):
-    return sorted(canon_inter(x, with_ver) for x in inters)
+def inter_bag(inters, with_ver=True, itp=False):
+    return sorted(canon_inter(x, with_ver, itp) for x in inters)
 
 
 def atoms_key(atoms, with_mass=True):
     return [(a["an"], a["ty"], a["q"], a["m"] if with_mass else "", a["rn"], a["cg"], a["resid"]) for a in atoms]
 
 
-def diff_mol(exp, obs, with_ver=True, gattr=True, what="molecule"):
+def diff_mol(exp, obs, with_ver=True, gattr=True, what="molecule", itp=False):
     """None if the observed abstract molecule equals the expected one, else a short description of the first difference"""
     ea, oa = atoms_key(exp["atoms"]), atoms_key(obs["atoms"])
     if ea != oa:
@@ -296,7 +306,7 @@ def diff_mol(exp, obs, with_ver=True, gattr=True, what="molecule"):
         for i, (x, y) in enumerate(zip(ea, oa)):
             if x != y:
                 return "%s: atom %d is %s, expected %s" % (what, i + 1, y, x)
-    eb, ob = inter_bag(exp["inters"], with_ver), inter_bag(obs["inters"], with_ver)
+    eb, ob = inter_bag(exp["inters"], with_ver, itp), inter_bag(obs["inters"], with_ver, itp)
     if eb != ob:
         miss = [x for x in eb if eb.count(x) > ob.count(x)]
         extra = [x for x in ob if ob.count(x) > eb.count(x)]
